@@ -565,6 +565,34 @@ pub fn c15(rec: &CallRecord, stats: &mut C15Stats) -> Vec<Violation> {
     if !site.is_empty() {
         sites.push(site);
     }
+    // at rate 1 the mutated value must also be the value that is emitted: when a string / byte
+    // string mutation is directly followed by an emission with a binary length-prefixed argument,
+    // that emission ends with the mutated payload (a value site whose emission is skipped is
+    // followed by the next site instead and is not judged)
+    if rate == 1.0 {
+        for (i, r) in rec.spy.iter().enumerate() {
+            let SpyRec::Value { kind, out: Some(mutated), .. } = r else { continue };
+            let payload: &[u8] = match mutated {
+                SpyVal::Str(t) => t.as_bytes(),
+                SpyVal::Bytes(b) => b,
+                _ => continue,
+            };
+            let Some(SpyRec::Post { mi: 0, old_tail, .. }) = rec.spy.get(i + 1) else { continue };
+            let Some(&op) = old_tail.first() else { continue };
+            // BINUNICODE, SHORT_BINUNICODE, BINUNICODE8, BINBYTES, SHORT_BINBYTES, BINBYTES8, BINSTRING, SHORT_BINSTRING, BYTEARRAY8
+            if ![b'X', 0x8c, 0x8d, b'B', b'C', 0x8e, b'T', b'U', 0x96].contains(&op) {
+                continue;
+            }
+            if !old_tail.ends_with(payload) {
+                v.push(Violation::new(
+                    "C15",
+                    format!("mutation-dropped({},{},{})", crate::exec::mut_name(*kind), mutated.kind(), mode),
+                    format!("{} returned a mutated value of {} bytes at rate 1, but the emission that follows (opcode 0x{:02x}, {} bytes) does not carry it", crate::exec::mut_name(*kind), payload.len(), op, old_tail.len()),
+                ));
+                return v;
+            }
+        }
+    }
     for s in sites {
         stats.sites += 1;
         let n_muts = rec.config.mutators.len();
